@@ -97,6 +97,28 @@ class Sys(e1.TimedSys):
         self.model = Model()
         self.nsent = 0
         self.find_session = 0
+        if cfg.get("answering_peer"):
+            # a peer that reacts synchronously: while a datagram for P1 is being handed to the transport, one more entry
+            # for P1 is requested (e.g. the acknowledgement for a Subscribe that an in-process peer sends at once); it is
+            # owed like any other entry.  Reactions to reactions are not generated (tags >= 100 mark them)
+            self.prot.transport.sink = self._answering_peer
+
+    def _answering_peer(self, data, addr, transport):
+        if ADDR2NAME.get(addr) != "P1":
+            return
+        try:
+            ents = [e for msg in refcodec.dec_sd_datagram(data) for e in msg["entries"]]
+        except refcodec.RefError:
+            return
+        if not any(e[1] == self.tagsid and e[2] - 1 < 100 for e in ents):
+            return
+        m = self.model
+        used = {tag for v in m.inflight.values() for tag, _ in v}
+        tag = 100
+        while tag in used:
+            tag += 1
+        m.inflight["P1"].append((tag, self.loop.time()))
+        self.prot.announcer.queue_send(tagged_entry(self.tagsid, tag), remote=DEST["P1"])
 
     def close(self):
         self.seam.__exit__(None, None, None)
@@ -258,6 +280,8 @@ def configs(ctx):
                                                          lifecycle=True, one_instance=True, deviations=1, fine=0), ctx.pick(4, 5)))
     out.append(("timeout-c-aliased-destinations", dict(sids=s, advs=(None, "half", "next"), timeout=C, bursts=(),
                                                        dests=("P3", "P4", "P1", "P5"), deviations=0, fine=0), ctx.pick(3, 4)))
+    out.append(("timeout-c-answering-peer", dict(sids=s, advs=(None, "half", "next"), timeout=C, bursts=(), dests=("M", "P1"),
+                                                 answering_peer=True, deviations=1, fine=0), ctx.pick(4, 5)))
     out.append(("timeout-0", dict(sids=s, advs=(None,), timeout=0, bursts=(17,), dests=("M", "P1", "P2"), lifecycle=True,
                                   deviations=1, fine=0), CLOSURE))
     return out
